@@ -386,7 +386,7 @@ Lemma example_ok :
     [None; None; None; Some 6%Z; None; None; None] /\
   lin_check_reg false false (map (read_after (m_vol m)) [(1, 5); (2, 7)]) (history m) = true /\
   lin_check_pk false false (map (read_after (m_vol m)) [(1, 5); (2, 7)]) (history m) = true /\
-  lin_check_vol false false (obs_of (m_vol m) [(1, Some (16, (-6)%Z)); (3, None)] [(1, 5); (2, 7)]) (history m) = true.
+  lin_check_vol false false (obs_of (m_vol m) [(1, Some (48, (-6)%Z)); (2, Some (120, 6%Z)); (3, None)] [(1, 5); (2, 7)]) (history m) = true.
 Proof. vm_compute. repeat split; reflexivity. Qed.
 
 (* a volume loaded read-only (noWriteOrDelete): the write and the delete are refused before any
